@@ -1,4 +1,4 @@
-use proc_macro2::{Span, TokenStream, TokenTree};
+use proc_macro2::{Delimiter, Group, Span, TokenStream, TokenTree};
 use quote::quote;
 use std::borrow::Cow;
 use syn::spanned::Spanned;
@@ -395,18 +395,21 @@ impl Parser {
             }
         };
 
-        let body = match tokens.next() {
-            Some(TokenTree::Group(group)) => group.stream(),
-            Some(first) => {
-                let mut body = TokenStream::from(first);
-
-                body.extend(tokens);
-                body
-            }
-            None => {
+        let body: Vec<TokenTree> = tokens.collect();
+        let body = match body.as_slice() {
+            [] => {
                 self.err("Callback missing a body", span);
                 return None;
             }
+            // Unwrap `{ ... }` or `( ... )` only when the group is the entire body
+            [TokenTree::Group(group)] if group.delimiter() != Delimiter::Bracket => group.stream(),
+            // A group followed by more tokens, like `(a) + b` or `{ a } + b`: keep the whole
+            // expression, parenthesised so a leading block is not taken for a statement
+            [TokenTree::Group(_), _, ..] => {
+                let group = Group::new(Delimiter::Parenthesis, body.into_iter().collect());
+                TokenStream::from(TokenTree::Group(group))
+            }
+            _ => body.into_iter().collect(),
         };
 
         let inline = InlineCallback { arg, body, span };
